@@ -12,6 +12,7 @@ CONSTANTS
  Msgs <- MCMsgs
  Subject <- MCSubject
  MaxCommits = 3
+ FreshContent = ""
  Want = {"ALL"}
  ArgLists <- MCArgLists
  Cmds <- MCCmds
